@@ -2,7 +2,9 @@
 //
 //   sweep_small    every 8- and 16-bit value through the generic templates, every pair of 8-bit values through the
 //                  two-argument helpers, every *structured* value (one/two-bit patterns, 2^j±{0,1,2}, extremes,
-//                  replicated bytes) of the six overload types, rotations by every count -70..70
+//                  replicated bytes) of the six overload types, rotations by every count -70..70; the full 10 x 10 matrix of
+//                  mixed operand types of div_ceil / round_up on structured values; popcount(data, size) for every size 0..40
+//                  at every start alignment
 //   sweep32_sample 2^25 stratified 32-bit values (one per 256-block of the high and of the low 24 bits)   [quick]
 //   sweep32_full   all 2^32 values of the int / unsigned overloads                                          [thorough]
 //
@@ -65,6 +67,32 @@ void structured_type() {
     }
 }
 
+//! div_ceil / round_up with first operand type N and second operand type K on structured values of both widths
+template <class N>
+struct MixedCol {
+    const std::vector<uint64_t>* S;
+    template <class K>
+    void run() {
+        typedef typename std::make_unsigned<N>::type UN;
+        typedef typename std::make_unsigned<K>::type UK;
+        std::vector<uint64_t> D = divisors(width<K>());
+        for (uint64_t p : *S)
+            for (uint64_t q : D) check_mixed<N, K>((N)(UN)p, (K)(UK)q);
+    }
+};
+struct MixedRow {
+    int n_type;
+    template <class N>
+    void run() {
+        std::vector<uint64_t> S = structured(width<N>());
+        std::vector<uint64_t> D = divisors(width<N>());
+        S.insert(S.end(), D.begin(), D.end());
+        MixedCol<N> col;
+        col.S = &S;
+        for (int k = 0; k < N_INT_TYPES; ++k) with_type(k, col);
+    }
+};
+
 void item_small(uint64_t t) {
     if (t == 0) {
         for (unsigned v = 0; v < 256; ++v) {
@@ -84,6 +112,7 @@ void item_small(uint64_t t) {
                 check_pair<uint8_t>((uint8_t)a, (uint8_t)b);
                 check_pair<int8_t>((int8_t)(uint8_t)a, (int8_t)(uint8_t)b);
                 check_mixed<uint8_t, int8_t>((uint8_t)a, (int8_t)(uint8_t)b);
+                check_mixed<int8_t, uint8_t>((int8_t)(uint8_t)a, (uint8_t)b);
             }
     } else if (t == 33) structured_type<int>();
     else if (t == 34) structured_type<unsigned>();
@@ -112,9 +141,32 @@ void item_small(uint64_t t) {
                 check_mixed<unsigned long, unsigned>((unsigned long)q, (unsigned)p);
                 check_mixed<long long, int>((long long)q, (int)(unsigned)p);
             }
+    } else if (t < 53) { // full matrix of mixed operand types for div_ceil / round_up: first operand type t - 43, every second type
+        MixedRow row;
+        row.n_type = (int)(t - 43);
+        with_type(row.n_type, row);
+    } else if (t == 53) { // popcount(data, size): every size 0..40 at every start alignment, solid / single-bit / mixed contents
+        unsigned char buf[48];
+        for (size_t size = 0; size <= 40; ++size)
+            for (size_t mis = 0; mis < 8; ++mis) {
+                for (unsigned fill : {0x00u, 0xFFu, 0x80u, 0x01u, 0xA5u}) {
+                    for (size_t i = 0; i < size; ++i) buf[i] = (unsigned char)fill;
+                    check_popcount_range(buf, size, mis);
+                }
+                for (size_t bit = 0; bit < 8 * size; ++bit) { // exactly one bit set / exactly one bit clear
+                    for (size_t i = 0; i < size; ++i) buf[i] = 0;
+                    buf[bit / 8] = (unsigned char)(1u << (bit % 8));
+                    check_popcount_range(buf, size, mis);
+                    for (size_t i = 0; i < size; ++i) buf[i] = 0xFF;
+                    buf[bit / 8] = (unsigned char)~(1u << (bit % 8));
+                    check_popcount_range(buf, size, mis);
+                }
+                for (size_t i = 0; i < size; ++i) buf[i] = (unsigned char)mix64(size * 64 + mis * 8 + i);
+                check_popcount_range(buf, size, mis);
+            }
     }
 }
-const uint64_t N_SMALL_ITEMS = 43;
+const uint64_t N_SMALL_ITEMS = 54;
 
 //! everything that is checked for one 32-bit pattern
 inline void one32(uint32_t u) {
